@@ -112,6 +112,14 @@ def explore(ck, n, np, tmath, atm, use_model=True):
             wi = float(frac_trapz(x, yi))
             if abs(gi - wi) > 1e-11 * (sum(abs(v) for v in x) * 9 + 1):
                 ck.violation("other", f"integrate_column with integer-typed y = {gi!r}, expected {wi!r}", dict(case, y=yi))
+        if m <= 60 and it % 5 == 0:
+            numlib.pure_call(ck, np, tmath.integrate_column, [ya, xa], "integrate_column(y, x)", case)
+            if kind == "pressure":
+                Tp = np.array([rng.uniform(190, 310) for _ in range(m)])
+                vp = np.array([rng.uniform(0, 0.03) for _ in range(m)])
+                numlib.pure_call(ck, np, atm.integrate_water_vapor, [vp, xa], "integrate_water_vapor(vmr, p)", case)
+                numlib.pure_call(ck, np, atm.pressure2height, [xa, Tp], "pressure2height(p, T)", case)
+                numlib.pure_call(ck, np, atm.column_relative_humidity, [vp * 0.1, xa, Tp], "column_relative_humidity(q, p, t)", case)
         # any axis of an n-d array
         if m <= 17:
             k2 = rng.randint(1, 3)
@@ -200,6 +208,10 @@ def explore(ck, n, np, tmath, atm, use_model=True):
                 Vin, Tin = (V, TT) if ax == 0 else (V.T.copy(), TT.T.copy())
                 ck.case(key=("axis", m, ncol, ax, x[0]), kind=f"iwv-crh/2d/axis{ax}")
                 c6 = {"fn": "2d", "p": x[:6], "axis": ax, "n": m, "columns": ncol}
+                Vin, lv = numlib.relayout(np, rng, Vin)
+                Tin, lt = numlib.relayout(np, rng, Tin)
+                c6["layout"] = [lv, lt]
+                ck.count(f"layout/{lv}")
                 iw2 = np.asarray(atm.integrate_water_vapor(Vin, xa, axis=ax))
                 for j in range(ncol):
                     w1 = float(atm.integrate_water_vapor(V[:, j].copy(), xa))
@@ -211,9 +223,42 @@ def explore(ck, n, np, tmath, atm, use_model=True):
                     frac = np.array([rng.uniform(0.1, 0.9) for _ in range(ncol)])
                     Q = qsat * frac[None, :]
                     Qin = Q if ax == 0 else Q.T.copy()
-                    crh2 = np.asarray(atm.column_relative_humidity(Qin.copy(), xa.copy(), Tin.copy(), axis=ax))
+                    Qin, lq = numlib.relayout(np, rng, Qin)
+                    c6["layout"] = [lv, lt, lq]
+                    crh2 = np.asarray(atm.column_relative_humidity(Qin, xa.copy(), Tin, axis=ax))
                     if crh2.shape != (ncol,) or np.max(np.abs(crh2 - frac)) > 1e-10:
                         ck.violation("other", f"column_relative_humidity along axis {ax}: columns at {frac.tolist()} of saturation give {crh2.tolist()}", c6)
+    # ---------------- long columns (the property ranges over 2 .. 10^4 levels): exact integral, split, unit spacing
+    sizes = [4097, 10000] if ck.tier == "quick" else [1023, 1025, 4095, 4096, 4097, 8193, 10000, rng.randint(4098, 9999)]
+    for m in sizes:
+        kind = rng.choice(["uniform", "irregular", "pressure"])
+        x = gen_grid(rng, m, kind)
+        y = [float(rng.randint(-9, 9)) if rng.random() < 0.5 else rng.uniform(0, 5) for _ in range(m)]
+        xa, ya = np.array(x), np.array(y)
+        case = {"fn": "integrate_column/long", "n": m, "grid": kind, "x": x[:4], "y": y[:4]}
+        ck.case(key=("long", m, x[0], y[0]), kind=f"trapz/long/n{m}")
+        scale = float(sum(abs((Fraction(x[i + 1]) - Fraction(x[i])) * (Fraction(y[i]) + Fraction(y[i + 1])) / 2) for i in range(m - 1))) or 1.0
+        got = float(tmath.integrate_column(ya, xa))
+        if abs(got - float(frac_trapz(x, y))) > 1e-11 * scale:
+            ck.violation("other", f"integrate_column on {m} levels = {got!r}, integral of the piecewise-linear interpolant = {float(frac_trapz(x, y))!r}", case)
+        unit = float(tmath.integrate_column(ya))
+        wu = float(sum((Fraction(y[i]) + Fraction(y[i + 1])) / 2 for i in range(m - 1)))
+        if abs(unit - wu) > 1e-11 * (sum(abs(v) for v in y) + 1):
+            ck.violation("other", f"integrate_column(y) without x on {m} levels = {unit!r}, unit-spacing value {wu!r}", case)
+        k = rng.choice([m // 2, 4096 if m > 4097 else m // 3, rng.randint(1, m - 2)])
+        parts = float(tmath.integrate_column(ya[:k + 1], xa[:k + 1])) + float(tmath.integrate_column(ya[k:], xa[k:]))
+        if abs(parts - got) > 1e-11 * scale:
+            ck.violation("other", f"integrate_column on {m} levels not additive when split at grid point {k}", dict(case, split=k))
+        two = np.asarray(tmath.integrate_column(np.stack([ya, 2 * ya]), xa, axis=1))
+        if two.shape != (2,) or abs(float(two[0]) - got) > 1e-11 * scale or abs(float(two[1]) - 2 * got) > 2e-11 * scale:
+            ck.violation("other", f"integrate_column along axis 1 of a (2, {m}) array differs from the 1-d integrals", case)
+        if kind == "pressure":
+            vm = np.full(m, 0.01)
+            iw = float(atm.integrate_water_vapor(vm, xa))
+            qv = Fraction(0.01) * Fraction(MW) / ((1 - Fraction(0.01)) * Fraction(MD) + Fraction(0.01) * Fraction(MW))
+            wiw = float(-qv * (Fraction(x[-1]) - Fraction(x[0])) / Fraction(G))
+            if rel(iw, wiw) > 1e-10:
+                ck.violation("other", f"integrate_water_vapor of a well-mixed column on {m} levels = {iw!r}, expected {wiw!r}", case)
     # ---------------- refinement: both IWV forms converge; isothermal column
     for _ in range(max(n // 10, 3)):
         T0, x0 = rng.uniform(220, 300), rng.uniform(1e-4, 0.03)
